@@ -315,7 +315,7 @@ def run_pending(case, res):
 
 def run_nocancel(case, res):
     F = instr.ME.futures
-    for how in ("value", "exc", "pending-cancel", "cancel-then-value", "cancel-twice-threads"):
+    for how in ("value", "exc", "pending-cancel", "cancel-then-value", "cancel-twice-threads", "inner-cancelled-then-cancel"):
         begin("rt")
         ctx = Ctx()
         try:
@@ -332,6 +332,13 @@ def run_nocancel(case, res):
             elif how == "pending-cancel":
                 rets.append(nc.cancel())
                 rets.append(nc.cancel())
+            elif how == "inner-cancelled-then-cancel":
+                # the shielded future is cancelled by its owner; the wrapper mirrors that; cancel() on the
+                # wrapper still has to say False
+                super(SpyFuture, spy).cancel()
+                spy.set_running_or_notify_cancel()
+                rets.append(nc.cancel())
+                rets.append(nc.cancel())
             elif how == "cancel-then-value":
                 rets.append(nc.cancel())
                 spy.set_result(("v", 2))
@@ -343,7 +350,7 @@ def run_nocancel(case, res):
             res.execs += 1
             if any(r is not False for r in rets):
                 res.violation("nocancel-cancel-returned-%s" % ([r for r in rets if r is not False][0],), "f_nocancel(f).cancel() returned %s (%s)" % (rets, how))
-            if spy.cancel_calls:
+            if spy.cancel_calls and how != "inner-cancelled-then-cancel":
                 res.violation("nocancel-leak", "cancel() reached the shielded future (%s)" % how)
             o = outcome(nc)
             want = {"value": ("value", ("v", 1)), "cancel-then-value": ("value", ("v", 2)), "cancel-twice-threads": ("value", ("v", 3))}.get(how)
